@@ -72,6 +72,10 @@ let () = iter_lines (fun line ->
     let cfg = if mode = "P" then pinned_cfg else repo_cfg in
     let sl = int_of_string slack in
     let orc = fun _ _ needed -> nat_of_int (int_of_nat needed + sl) in
+    (* V:... = a variadic call: the machine has no variadic functions; such sequences are judged by the harness's own
+       reference semantics and its snapshot oracle only *)
+    if List.exists (fun o -> String.length o > 0 && o.[0] = 'V') (String.split_on_char ';' opss)
+    then print_endline (id ^ " SKIP variadic call (direct oracle only)") else
     let ops = List.map parse_op (String.split_on_char ';' opss) in
     let st = ref empty_state and ps = ref [] in
     let dom = ref false in
